@@ -35,11 +35,13 @@ From NQ Require Import Proofs.SdkTopProofs.
 From NQ Require Lang.Asm Lang.AsmSemQ Proofs.AsmProofs Proofs.AsmQProofs Proofs.AsmQMachine.
 From NQ Require Exec.State Exec.Sem Exec.SemQ.
 From NQ Require Proofs.Bridge_AsmQ Proofs.Bridge_AsmQLog Proofs.Bridge_SdkAsm Proofs.Bridge_E2E Proofs.Bridge_E2E_H1.
-From Gen Require Gen_Asm.
+From NQ Require Base.Bits Lang.Codec Lang.CodecCheck Proofs.WireBridge Proofs.Bridge_E2E_Wire.
+From Gen Require Gen_Asm Gen_Codec.
 Import ListNotations.
 
 Module E2E := NQ.Proofs.Bridge_E2E.
 Module H1 := NQ.Proofs.Bridge_E2E_H1.
+Module W := NQ.Proofs.Bridge_E2E_Wire.
 Local Open Scope Z_scope.
 
 (* the regenerated parameters satisfy C03's side conditions *)
@@ -77,6 +79,36 @@ Theorem C05_end_to_end_params : forall pr,
 Proof.
   intros pr Hp Hq Hb cap segs script e bs stL Hw Hev Hl Hcap Hs.
   exact (H1.sdk_end_to_end_full pr cap segs script e bs stL Hp Hq Hb Hw Hev Hl Hcap Hs).
+Qed.
+
+(* ------------------------------------------------------------------ THROUGH BYTES
+   Each flushed block: flatten -> proto-program -> Asm.assemble with the regenerated vanilla
+   flavour table (Gen_Codec.gen_vanilla) -> encode_checked with the regenerated header/layout ->
+   BYTES -> decode_sub -> embed -> e_qprog, and the decoded subroutines run on the common
+   semantics.  The premise replacing P2: the back end produced bytes for every flush
+   (W.wire_blocks ... = Some bl: the assembler did not run out of scratch registers, every
+   mnemonic is in the flavour table, and the encoder accepted every operand -- C16).  The hop
+   through bytes is the identity by WireBridge.assemble_wire (C03 x C16 x C01). *)
+Theorem C05_e2e_codec_ok :
+  Codec.header_ok Gen_Codec.gen_header = true /\ Codec.wf_table Gen_Codec.gen_vanilla = true.
+Proof. vm_compute. split; reflexivity. Qed.
+
+Theorem C05_end_to_end_wire : forall cap v0 v1 app segs script e bs stL bl,
+  Forall (fun seg => bwfs seg = true) segs ->
+  eval_prog (prog_of segs) script = Some e ->
+  lower_prog true (prog_of segs) = Ok (bs, stL) ->
+  (qpeak segs <= cap)%nat ->
+  W.wire_blocks Gen_Asm.gen_params Gen_Codec.gen_vanilla Gen_Codec.gen_header v0 v1 app bs = Some bl ->
+  exists qps fuel s,
+    W.unwire_blocks Gen_Codec.gen_vanilla Gen_Codec.gen_header bl = Some qps /\
+    E2E.qrun_blocks fuel qps (SemQ.mkQ (State.init_state cap) script []) = (s, State.Halt) /\
+    Bridge_SdkAsm.inst_trace (SemQ.q_trace s) = e_trace e /\
+    (forall a, State.find Z.eqb (Z.of_nat a) (State.arrs (SemQ.q_st s)) = alookup a (e_arr e)).
+Proof.
+  intros cap v0 v1 app segs script e bs stL bl Hw Hev Hl Hcap Hwire.
+  destruct C05_e2e_params_ok as (Hp & Hq & Hb). destruct C05_e2e_codec_ok as (Hh & Ht).
+  exact (W.sdk_end_to_end_wire Gen_Asm.gen_params Gen_Codec.gen_vanilla Gen_Codec.gen_header cap v0 v1 app
+           segs script e bs stL bl Hp Hq Hb Hh Ht Hw Hev Hl Hcap Hwire).
 Qed.
 
 (* the intermediate forms (kept): given the compiled blocks explicitly, no scratch premise *)
@@ -183,7 +215,35 @@ Proof.
   vm_compute. split; reflexivity.
 Qed.
 
+(* through bytes on the same example: two messages are produced, decoding them gives the two
+   subroutines, and running those yields e_trace *)
+Example C05_end_to_end_wire_nonvacuous :
+  exists e bs stL,
+    eval_prog (prog_of ex_segs) ex_script = Some e /\
+    lower_prog true (prog_of ex_segs) = Ok (bs, stL) /\
+    match W.wire_blocks ex_pr Gen_Codec.gen_vanilla Gen_Codec.gen_header 1 0 0 bs with
+    | Some bl =>
+        List.length bl = 2%nat /\ forallb (fun b => Nat.leb 100 (List.length b)) bl = true /\
+        match W.unwire_blocks Gen_Codec.gen_vanilla Gen_Codec.gen_header bl with
+        | Some qps =>
+            match E2E.qrun_blocks 3000%nat qps (SemQ.mkQ (State.init_state ex_cap) ex_script []) with
+            | (s, State.Halt) => Bridge_SdkAsm.inst_trace (SemQ.q_trace s) = e_trace e
+            | _ => False
+            end
+        | None => False
+        end
+    | None => False
+    end.
+Proof.
+  destruct (eval_prog (prog_of ex_segs) ex_script) as [e|] eqn:Ee; [|vm_compute in Ee; discriminate].
+  destruct (lower_prog true (prog_of ex_segs)) as [[bs stL]|] eqn:El; [|vm_compute in El; discriminate].
+  exists e, bs, stL. split; [reflexivity|]. split; [reflexivity|].
+  vm_compute in Ee. inversion Ee; subst e. vm_compute in El. inversion El; subst bs stL. clear Ee El.
+  vm_compute. repeat split; reflexivity.
+Qed.
+
 Print Assumptions C05_end_to_end.
+Print Assumptions C05_end_to_end_wire.
 Print Assumptions C05_end_to_end_params.
 Print Assumptions C05_end_to_end_compiled.
 Print Assumptions C04B_asmq_halting.
